@@ -352,6 +352,94 @@ class Config(object):
         return u
 
 
+    def custom_header(self, major, pcm, numer, par_index, tf_index, level=0):
+        """A real sequence header whose total bit length is steered by the frame-rate numerator code
+        length and an optional preset pixel aspect ratio, and whose LAST coded field before
+        picture_coding_mode is a preset transfer function index (custom colour spec, index 0).
+        -> (U, header length in bits as measured by the real sequence_header parser)"""
+        key = ("custom", major, pcm, numer, par_index, tf_index, level)
+        if key in self.hdr_cache:
+            return self.hdr_cache[key]
+        I = impl()
+        t = I["tables"]
+        b = I["bitstream"]
+        seq = I["make_sequence"](self.features(0), [])
+        sh = seq["data_units"][0]["sequence_header"]
+        sh["parse_parameters"]["major_version"] = major
+        sh["parse_parameters"]["level"] = t.Levels(level)
+        sh["picture_coding_mode"] = t.PictureCodingModes(pcm)
+        vp = sh["video_parameters"]
+        vp["frame_rate"]["frame_rate_numer"] = numer
+        if par_index:
+            vp["pixel_aspect_ratio"] = b.PixelAspectRatio(custom_pixel_aspect_ratio_flag=True, index=par_index)
+        vp["color_spec"] = b.ColorSpec(
+            custom_color_spec_flag=True, index=0,
+            color_primaries=b.ColorPrimaries(custom_color_primaries_flag=False),
+            color_matrix=b.ColorMatrix(custom_color_matrix_flag=False),
+            transfer_function=b.TransferFunction(custom_transfer_function_flag=True, index=tf_index))
+        seq["data_units"] = [seq["data_units"][0], seq["data_units"][-1]]
+        payload = split_units(self._serialise(seq))[0][1]
+        # bit length, from the real parser
+        from vc2_conformance.decoder.sequence_header import sequence_header as real_sequence_header
+        st = I["State"]()
+        I["decoder"].init_io(st, BytesIO(payload + b"\x00"))
+        real_sequence_header(st)
+        byte, next_bit = I["decoder"].tell(st)
+        nbits = byte * 8 + (7 - next_bit)
+        hid = self.hid_by_bytes.setdefault(payload, len(self.hid_by_bytes) + 1000 * CONFIG_INDEX[self.name])
+        u = U(0, (hid, major, self.profile, level, pcm, 1), payload, 0)
+        self.hdr_cache[key] = (u, nbits)
+        return u, nbits
+
+
+def header_pair_cases():
+    """Pairs of individually valid sequence headers of EQUAL length which differ only
+    (a) in the last few bits -- the preset transfer function index 1 (code 001) vs 2 (code 011) is the
+        last field before picture_coding_mode, so the headers differ in the 3rd bit from the end
+        (picture_coding_mode 0, code 1) or the 5th (picture_coding_mode 1, code 001) and nowhere else; NB
+        the last bit of a valid header is always 1 and the one before it is fixed by the syntax too --
+        for every residue of the header's bit length mod 8;
+    (b) in the first byte only (major_version 1 vs 2); (c) in a middle byte only (frame rate numerator
+    1 vs 2).  Each pair is used in header-only sequences (both orders) and around real pictures.
+    -> list of (units, label, config name)"""
+    cfg = CONFIG_BY_NAME["ld-frames-pic-2x1"]
+    pics = [u for u in cfg.picture_units(False) if u.tag == 1]
+    out = []
+    by_residue = {}
+    for numer in (1, 3, 7, 15, 31, 63, 127):
+        for par in (0, 1, 3):
+            for pcm in (0, 1):
+                a, na = cfg.custom_header(1, pcm, numer, par, 1)
+                b, nb = cfg.custom_header(1, pcm, numer, par, 2)
+                if na != nb or len(a.payload) != len(b.payload) or a.payload == b.payload:
+                    continue
+                diff = [i for i in range(len(a.payload)) if a.payload[i] != b.payload[i]]
+                if len(diff) != 1 or diff[0] < len(a.payload) - 2:
+                    continue
+                by_residue.setdefault((na % 8, pcm), (a, b, na))
+    for (res, pcm), (a, b, n) in sorted(by_residue.items()):
+        lab = "hdr-tail:len%d:mod8=%d:pcm%d" % (n, res, pcm)
+        out.append(([a, b, eos()], lab + ":AB", cfg.name))
+        out.append(([b, a, eos()], lab + ":BA", cfg.name))
+        out.append(([a, a, eos()], lab + ":AA", cfg.name))
+        if pcm == 0:
+            out.append(([a, pics[0].with_picnum(0), b, pics[1].with_picnum(1), eos()], lab + ":A-P-B-P", cfg.name))
+            out.append(([b, pics[0].with_picnum(4), pad(1), a, eos()], lab + ":B-P-pad-A", cfg.name))
+    # (b) first byte only, (c) a middle byte only
+    a, _ = cfg.custom_header(1, 0, 1, 0, 1)
+    b, _ = cfg.custom_header(2, 0, 1, 0, 1)
+    c, _ = cfg.custom_header(1, 0, 2, 0, 1)
+    for x, y, lab in ((a, b, "hdr-first-byte"), (a, c, "hdr-middle-byte")):
+        diff = [i for i in range(len(x.payload)) if x.payload[i] != y.payload[i]]
+        if len(x.payload) != len(y.payload) or len(diff) != 1 or (lab == "hdr-first-byte") != (diff[0] == 0):
+            raise RuntimeError("header pair %s does not differ where intended: %r" % (lab, diff))
+        out.append(([x, y, eos()], lab + ":AB", cfg.name))
+        out.append(([y, x, eos()], lab + ":BA", cfg.name))
+        out.append(([x, pics[0].with_picnum(0), y, eos()], lab + ":A-P-B", cfg.name))
+    header_pair_cases.residues = sorted(set(r for (r, _) in by_residue))
+    return out
+
+
 def pad(n=0, byte=0):
     return U(4, (0, 0, 0, 0, 0, 0), bytes(bytearray([byte] * n)), 48)
 
@@ -1027,6 +1115,14 @@ def run(ctx):
     # ---- corpus ------------------------------------------------------------------------------
     for units, label, cfgname in corpus_cases():
         cases.append(make_case(units, "corpus:" + label, cfgname))
+    # ---- equal-length header pairs differing only in the last bits / first byte / a middle byte -----
+    for units, label, cfgname in header_pair_cases():
+        cases.append(make_case(units, label, cfgname))
+        ctx.count(1, key=label, bucket="header-pairs")
+    ctx.note("header tail pairs cover header bit lengths mod 8 = %r" % (header_pair_cases.residues,))
+    if header_pair_cases.residues != list(range(8)):
+        ctx.obligation("generator:header tail pairs for every bit-length residue", False, "corr-shard",
+                       "residues covered: %r" % (header_pair_cases.residues,))
     # ---- (a) exhaustive orderings ---------------------------------------------------------------
     full = "HhPFDpaE"
     plan = ctx.pick(
